@@ -7,8 +7,10 @@ cd /repo
 if ! git diff --quiet; then echo "try_mutant: /repo has uncommitted changes"; exit 3; fi
 git apply "$patch" || { echo "try_mutant: patch does not apply"; exit 3; }
 rc=0
+export VERIF_EVIDENCE_DIR=$(mktemp -d)   # do not overwrite /verif/evidence with the mutant run
 for c in "$@"; do
   (cd /verif && ./check $c 2>&1 | grep -E "VIOLATION|violated:|KNOWN|obligations|check:" )
 done
 git -C /repo checkout -- .
+rm -rf "$VERIF_EVIDENCE_DIR"
 git -C /repo status --short | head
